@@ -177,6 +177,7 @@ class Result:
         self.violations = []
         self.samples = []
         self.outcomes = set()
+        self.distinct = set()
         self.shards_total = 0
         self.shards_done = 0
         self.capped = False
@@ -191,6 +192,7 @@ class Result:
                 self.samples.append(s)
         self.outcomes.update(tuple(o) if isinstance(o, list) else o
                              for o in r.get('outcomes', []))
+        self.distinct.update(r.get('distinct', ()))
 
 
 def run_pool(result, modname, fn, shards, tier, budget_s=None, chunksize=1,
@@ -272,7 +274,8 @@ def finish(result, tier, level, rule, assumptions, t0, coverage_extra=None,
     c = result.counters
     coverage = {
         'evaluations': int(c.get('evaluations', c.get(transitions_key, 0))),
-        'distinct_nontrivial': int(c.get(nontrivial_key, 0)),
+        'distinct_nontrivial': len(result.distinct) if result.distinct
+        else int(c.get(nontrivial_key, 0)),
         'rule': rule,
         'samples': result.samples[:6] or ['(none)'],
         'states': int(c.get(states_key, 0)),
